@@ -90,6 +90,11 @@ def clientLine (rs : RibSt) (cl : Cl.State) (ts : List Tok) : RibSt × Cl.State 
       match args with
       | [f] => (rs, { fibMode := tokStr f == "1" })
       | _ => (bad rs, cl)
+    else if c = "cl.connect" then
+      -- Connect after requests were queued: opening the stream changes nothing the client has
+      -- recorded (queue, pending operations, results, errors); the observation that follows is
+      -- compared with the unchanged model state
+      (rs.covr "cl.connect", cl)
     else if c = "cl.start" then
       -- StartSending queues the session parameters and the election id itself
       (rs.covr "cl.start", Cl.q (Cl.q (Cl.startSending cl) { params := true }) { elec := true })
